@@ -257,7 +257,7 @@ func runC15(c *Ctx) {
 			if syn == nil {
 				continue
 			}
-			start, end := m.Fset.Position(syn.Pos()), m.Fset.Position(syn.End())
+			start, end := m.origPosition(syn.Pos()), m.origPosition(syn.End())
 			key := "escapes " + m.fnName(fn)
 			var esc []string
 			nd := 0
